@@ -58,7 +58,11 @@ impl<'de> Visitor<'de> for RoomNetworkVisitor {
         while let Some((key, value)) = access.next_entry::<String, JsonValue>()? {
             match key.as_str() {
                 "include_all_networks" => {
-                    include_all_networks = value.as_bool().unwrap_or(false);
+                    // In a query string the value arrives as a string.
+                    include_all_networks = value
+                        .as_bool()
+                        .or_else(|| value.as_str().and_then(|s| s.parse().ok()))
+                        .unwrap_or(false);
                 }
                 "third_party_instance_id" => {
                     third_party_instance_id = value.as_str().map(|v| v.to_owned());
